@@ -478,6 +478,8 @@ def expand(item, acc: core.Acc, tier):
 
 
 def sweep_item(item, acc: core.Acc, tier):
+    if isinstance(item, tuple) and item and item[0] == "stepwise":
+        return sweep_stepwise(item[1], acc)
     hist = item
     fs, conn, m = build(hist)
     try:
@@ -492,6 +494,37 @@ def sweep_item(item, acc: core.Acc, tier):
     acc.sample({"history": [OPS[o][0] for o in hist], "reporters_run": n}, cap=3)
 
 
+def sweep_stepwise(hist, acc: core.Acc):
+    """The property says "observed after every step": ONE session runs the history and the complete sweep after every
+    statement of it, so every reporter statement is executed again and again, with identical text, around each change of
+    the catalog (anything a reporter remembers from its previous answer shows up here and nowhere else)."""
+    import fakesnow.instance as inst
+
+    fs = inst.FakeSnow()
+    n = 0
+    try:
+        conn = fs.connect(database="db1", schema="s1")
+        m = Model()
+        cur = conn.cursor()
+        n += sweep(conn, m, acc, {"history": [], "sweep": "stepwise", "full_history": hist}, "connect")
+        for i, oid in enumerate(hist):
+            sql, _en, ap = OPS[oid]
+            ap(m)
+            try:
+                cur.execute(sql)
+            except Exception:  # noqa: BLE001
+                pass
+            n += sweep(conn, m, acc, {"history": hist[: i + 1], "sweep": "stepwise", "full_history": hist}, oid)
+    finally:
+        fs.duck_conn.close()
+    acc.count("evaluations")
+    acc.count("sweeps", len(hist) + 1)
+    acc.count("stepwise_histories")
+    acc.count("reporter_queries", n)
+    acc.obs((hist, "stepwise", sorted((k, v["count"]) for k, v in acc.viol.items())))
+    acc.nontrivial(("stepwise", tuple(hist)))
+
+
 def run(ctx: core.Ctx):
     ops = QUICK_OPS if ctx.quick else list(OPS)
     depth = 2 if ctx.quick else 3
@@ -499,7 +532,8 @@ def run(ctx: core.Ctx):
         "BFS over DDL histories from the written-out operation alphabet (enabledness from the model) up to the depth bound, plus "
         "explicitly listed deeper name-collision histories; states deduplicated on (raw-DuckDB catalog incl. fakesnow side "
         "tables, model state); the full reporting sweep (information_schema x4, DESCRIBE, SHOW x10+, description) is run once per "
-        "distinct state; non-trivial = distinct swept state"
+        "distinct state, and every maximal history is run once more in one session with the sweep after every step; "
+        "non-trivial = distinct swept state"
     )
     ctx.assumptions = ["the model encodes Snowflake's documented metadata semantics (CTAS/RENAME keep VARCHAR lengths, DROP forgets comments)"]
     seen = {}
@@ -534,6 +568,11 @@ def run(ctx: core.Ctx):
             seen[k] = hist + [o]
             to_sweep.append(hist + [o])
     ctx.pmap(sweep_item, to_sweep, chunk=2, recheck=True)
+    # the same histories once more, swept after every step in one session (maximal histories only: prefixes are covered)
+    as_t = {tuple(h) for h in to_sweep}
+    maximal = sorted(h for h in as_t if not any(len(o) > len(h) and o[: len(h)] == h for o in as_t))
+    ctx.pmap(sweep_item, [("stepwise", list(h)) for h in maximal], chunk=2, recheck=True)
+    ctx.extra["stepwise_histories"] = len(maximal)
     for k in seen:
         ctx.acc.add("states", k)
     ctx.extra["bound"] = f"depth {depth} over {len(ops)} operations + {len(COLLISIONS)} explicit collision histories (all prefixes)"
@@ -544,7 +583,9 @@ def run(ctx: core.Ctx):
 def replay(payload):
     r = payload["replay"]
     acc = core.Acc()
-    if r.get("sweep"):
+    if r.get("sweep") == "stepwise":
+        sweep_item(("stepwise", r["full_history"]), acc, "quick")
+    elif r.get("sweep"):
         sweep_item(r["history"], acc, "quick")
     else:
         expand((r["history"], r["op"]), acc, "quick")
